@@ -27,6 +27,8 @@ var coreGen = rapid.OneOf(
 	rapid.StringMatching(`[ab] [ab]`),
 	rapid.StringMatching(`[ab]%20[ab]`),
 	rapid.StringMatching(`[ab]//[ab]`),
+	// zero-width characters and the byte order mark are NOT white space: they belong to the path on both sides
+	rapid.SampledFrom([]string{"a\u200b", "\ufeffa", "a\u200d", "\u2060b", "a/b\u200c"}),
 	rapid.Just(""),
 )
 
@@ -193,6 +195,10 @@ func propDynamic(t *rapid.T) {
 	if strict {
 		opts = append(opts, rux.StrictLastSlash)
 	}
+	if rapid.Bool().Draw(t, "caching") {
+		// the cache of matched dynamic routes sits in front of the lookup: it must key on the normalised path too
+		opts = append(opts, rux.CachingWithNum(uint16(rapid.IntRange(0, 3).Draw(t, "cacheCap"))))
+	}
 	r := newRouter(t, opts)
 	lit := rapid.StringMatching(`[ab.]{1,2}`).Draw(t, "lit")
 	tail := rapid.SampledFrom([]string{"", "/x", "[/x]"}).Draw(t, "tail")
@@ -221,12 +227,25 @@ func propDynamic(t *rapid.T) {
 		t.Fatalf("harness: %q not parsable", want)
 	}
 	n := rapid.IntRange(1, 5).Draw(t, "nreq")
+	var earlier []string
 	for i := 0; i < n; i++ {
 		path, vals, _ := model.GenMatching(t, p)
 		q := decorate(t, strings.Trim(path, "/"))
 		if strict && strings.HasSuffix(path, "/") {
 			q = path
 		}
+		if len(earlier) > 0 && rapid.IntRange(0, 2).Draw(t, "revisit") == 0 {
+			// an earlier request path again, with its trailing slash toggled (strict mode tells the two apart,
+			// whatever an earlier request left behind)
+			q = rapid.SampledFrom(earlier).Draw(t, "earlier")
+			if strings.HasSuffix(q, "/") {
+				q = strings.TrimRight(q, "/")
+			} else {
+				q += "/"
+			}
+			ev.Class("dynamic:earlier-path-with-toggled-trailing-slash")
+		}
+		earlier = append(earlier, q)
 		ev.Eval()
 		method := rapid.SampledFrom([]string{"GET", "GET", "HEAD"}).Draw(t, "method")
 		if method == "HEAD" {
@@ -366,3 +385,56 @@ func propTotal(t *rapid.T) {
 }
 
 func TestPropTotal(t *testing.T) { rapid.Check(t, propTotal) }
+
+// propIntercept: InterceptAll(p) resolves every request as a request for p, and p is normalised like any other path -
+// under the router's final StrictLastSlash setting, whatever the order of the two options.
+func propIntercept(t *rapid.T) {
+	ev.Case()
+	strict := rapid.Bool().Draw(t, "strict")
+	core := coreGen.Filter(func(s string) bool { return s != "" }).Draw(t, "core")
+	to := decorate(t, core)
+	reg := decorate(t, core)
+	if rapid.IntRange(0, 3).Draw(t, "otherCore") == 0 {
+		reg = decorate(t, coreGen.Draw(t, "regCore"))
+	}
+	if !model.Stable(to, strict) || !model.Stable(reg, strict) {
+		t.Skip("unstable spelling")
+	}
+	opts := []func(*rux.Router){rux.InterceptAll(to)}
+	if strict {
+		if rapid.Bool().Draw(t, "strictFirst") {
+			opts = []func(*rux.Router){rux.StrictLastSlash, rux.InterceptAll(to)}
+		} else {
+			opts = append(opts, rux.StrictLastSlash)
+		}
+	}
+	r := newRouter(t, opts)
+	if pv := try(func() { r.GET(reg, func(c *rux.Context) { c.WriteString("hit") }) }); pv != nil {
+		t.Fatalf("registration of %q panicked: %v", reg, pv)
+	}
+	reach := model.Normalize(to, strict) == model.Normalize(reg, strict)
+	for i, n := 0, rapid.IntRange(1, 3).Draw(t, "nreq"); i < n; i++ {
+		q := decorate(t, coreGen.Draw(t, "anyCore"))
+		ev.Eval()
+		code, body, pv := serve(r, &url.URL{Path: q})
+		if pv != nil {
+			t.Fatalf("strict=%v InterceptAll(%q) route %q: request %q panicked: %v", strict, to, reg, q, pv)
+		}
+		if hit := code == 200 && body == "hit"; hit != reach {
+			t.Fatalf("strict=%v InterceptAll(%q)=%q, route %q=%q: request %q should reach=%v, got %d %q", strict, to, model.Normalize(to, strict), reg, model.Normalize(reg, strict), q, reach, code, body)
+		}
+	}
+	if reach && to != reg {
+		ev.Class("intercept:reach-through-another-spelling")
+		ev.NonTrivial(fmt.Sprint(strict, to, reg), func() string { return fmt.Sprintf("strict=%v InterceptAll(%q) reaches route %q", strict, to, reg) })
+	} else if !reach && strings.TrimRight(model.Normalize(to, true), "/") == strings.TrimRight(model.Normalize(reg, true), "/") {
+		ev.Class("intercept:strict-distinguishes-trailing-slash")
+		ev.NonTrivial(fmt.Sprint(strict, to, reg), func() string { return fmt.Sprintf("strict InterceptAll(%q) must not reach route %q", to, reg) })
+	} else if reach {
+		ev.Class("intercept:reach-same-spelling")
+	} else {
+		ev.Class("intercept:miss")
+	}
+}
+
+func TestPropIntercept(t *testing.T) { rapid.Check(t, propIntercept) }
